@@ -291,13 +291,13 @@ class Impute(EnvironmentFilter):
         start = time.time()
         if is_dense:
             if self._stat in ["mean","median"]:
-                imputable_cols = [i for i,v in enumerate(first['context']) if isinstance(v,(int,float) or v is None)]
+                imputable_cols = [i for i,v in enumerate(first['context']) if isinstance(v,(int,float)) or v is None]
             else:
                 imputable_cols = list(range(len(first['context'])))
 
         elif is_sparse:
             if self._stat in ['mean','median']:
-                unimputable_cols = {k for k,v in first['context'].items() if not isinstance(v,(int,float) or v is None)}
+                unimputable_cols = {k for k,v in first['context'].items() if not (isinstance(v,(int,float)) or v is None)}
             else:
                 unimputable_cols = {}
 
